@@ -122,8 +122,8 @@ def dumpPol (s : PolState) : String :=
   "part=" ++ showPart s.part ++
   " hosts=" ++ (if s.hosts.isEmpty then "-" else ",".intercalate (s.hosts.map (fun p => toString p.h.id))) ++
   " ring=" ++ showRingOpt s.ring ++
-  " k0=" ++ showEntryOpt (s.replicas 0) ++ " k1=" ++ showEntryOpt (s.replicas 1) ++
-  " k2=" ++ showEntryOpt (s.replicas 2) ++ " k3=" ++ showEntryOpt (s.replicas 3)
+  " k0=" ++ showEntryOpt (s.entry 0) ++ " k1=" ++ showEntryOpt (s.entry 1) ++
+  " k2=" ++ showEntryOpt (s.entry 2) ++ " k3=" ++ showEntryOpt (s.entry 3)
 
 def uniAt (c : Cl) (w : String) : Option PHost := w.toNat?.bind (fun i => c.uni[i]?)
 
@@ -159,13 +159,16 @@ def showLookup : Lookup → String
   strategy <class-hex> k=v…          → getStrategy
   resetpol <sessKs> id/addr/dc/rack/t,… …  → new tokenAwareHostPolicy, universe of host objects (index = position), every schema unreadable
   pev add i | addmany i,j | rem i | up i | down i | part m|r|o|k|e | kc ks   → the policy event, answer = dump of the metadata
-  pfresh                             → the ghost field `fresh` (ties the harness's spec-backed classification to the theorem's hypothesis)
+  pfresh                             → the ghost field `fresh` (keyspaces whose schema is unchanged since the policy last read it)
+  psettled                           → the keyspaces of ks0..ks3 that are `settled` = the hypothesis of C10_pick_spec (ties the
+                                       harness's spec-backed classification to the theorem's hypothesis)
   psch ks e|u|s:rf|n:dc=rf,…         → the environment: what getKeyspaceMetadata(ks) answers from now on
-  prepl ks t…                        → replicas Pick starts from (spec-backed: Spec.lookup on the current environment)
+  prepl ks t…                        → replicas Pick starts from (spec-backed: Spec.lookup on the current environment);
+                                       emitted for settled keyspaces — every keyspace with an entry, session keyspace or not
   xprepl ks t…                       → the same read from the stored snapshot, with its source (r = replica map, o = owner)
   ppick ks t…                        → hosts the real Pick offers (ordered partitioner only; every host up and local, the
                                        fallback policy offers nothing): model = the stored snapshot's replica list
-  spick ks t…                        → the same on a fresh keyspace, spec-backed: answered with Spec.lookup -/
+  spick ks t…                        → the same on a settled keyspace, spec-backed: answered with Spec.lookup -/
 def step (s : Cl) (ws : List String) : Cl × String :=
   match ws with
   | "reset" :: _ :: hs =>
@@ -225,6 +228,9 @@ def step (s : Cl) (ws : List String) : Cl × String :=
   | ["pfresh"] =>
     let l := s.pol.fresh.foldr (fun k acc => insNat k acc) []
     (s, if l.isEmpty then "-" else ",".intercalate (l.map toString))
+  | ["psettled"] =>
+    let l := [0, 1, 2, 3].filter (fun k => settled s.pol k)
+    (s, if l.isEmpty then "-" else ",".intercalate (l.map toString))
   | "prepl" :: k :: ts =>
     -- spec-backed: answered from the CURRENT environment only (Spec.lookup), see C10_pick_spec
     match k.toNat?, ts.mapM String.toInt? with
@@ -249,7 +255,7 @@ def step (s : Cl) (ws : List String) : Cl × String :=
           else "n/a")
     | _, _ => (s, "bad-op")
   | "spick" :: k :: ts =>
-    -- the real Pick on a fresh keyspace (spec-backed): the hosts offered = Spec.lookup on the current environment
+    -- the real Pick on a settled keyspace (spec-backed): the hosts offered = Spec.lookup on the current environment
     match k.toNat?, ts.mapM String.toInt? with
     | some k, some ts =>
       (s, if s.pol.part = .ordered then
